@@ -3,8 +3,16 @@
 translator (clang AST of int.h -> Vita/C14/Gen.lean) + Lean proofs over the generated
 terms (Vita/C14/Props.lean) + differential run of the generated terms against the
 compiled primitives under UBSan + an independent Python oracle of the documented values.
+
+Round 3: the ephemeral constant `integer::number` (gene parameter, a double -> int), `number::init`,
+`integer::cast` and the class / member tables of namespace vita::integer are translated too
+(-> Vita/C14/GenNum.lean); the double -> int conversion is the checked conversion of an exact bit-level
+model of binary64 (Vita/C14/Model.lean), proved total for EVERY double and run against the compiled
+code under -fsanitize=float-cast-overflow.
 """
+import math
 import os
+import struct
 import sys
 
 from vlib import common as C
@@ -48,6 +56,70 @@ def spec(op, x):
     return None
 
 
+def dbits(x):
+    return struct.unpack("<Q", struct.pack("<d", x))[0]
+
+
+def dfrom(b):
+    return struct.unpack("<d", struct.pack("<Q", b))[0]
+
+
+def sat(x):
+    """documented value of integer::number::eval on the parameter x: saturated truncation, NaN -> 0"""
+    if math.isnan(x):
+        return 0
+    if math.isinf(x):
+        return MAX if x > 0 else MIN
+    return clamp(int(x))
+
+
+def nxt(x, k):
+    for _ in range(abs(k)):
+        x = math.nextafter(x, math.inf if k > 0 else -math.inf)
+    return x
+
+
+def dbl_boundary():
+    """doubles around everything that matters for double -> int: the int bounds (each side, next / previous
+    representable), halves, zeros, denormals, the largest magnitudes, infinities, NaNs with several payloads"""
+    v = []
+    for c in (2147483647.0, 2147483648.0, -2147483648.0, -2147483649.0, 2147483646.0, -2147483647.0,
+              4294967296.0, -4294967296.0, 2.0 ** 53, -(2.0 ** 53), 2.0 ** 63, -(2.0 ** 63), 2.0 ** 64,
+              0.0, 1.0, -1.0, 0.5, -0.5, 127.0, -128.0, 1e10, -1e10, 3e9, -3e9, 1e300, -1e300):
+        for k in (-2, -1, 0, 1, 2):
+            v.append(nxt(c, k))
+        v += [c + 0.5, c - 0.5, c + 0.25]
+    v += [-0.0, 5e-324, -5e-324, sys.float_info.min, -sys.float_info.min, sys.float_info.max, -sys.float_info.max,
+          math.inf, -math.inf, 0.99999999999999989, -0.99999999999999989, 1.5, -1.5, 2.5, 65535.75, -65536.25]
+    out = [dbits(x) for x in v]
+    out += [0x7FF8000000000000, 0xFFF8000000000000, 0x7FF0000000000001, 0x7FFFFFFFFFFFFFFF, 0xFFF0000000000001,
+            0x7FF4000000000000]
+    seen, res = set(), []
+    for b in out:
+        if b not in seen:
+            seen.add(b)
+            res.append(b)
+    return res
+
+
+def py_b64(op, a, y):
+    """the exact double operation computed by Python (independent of the Lean model)"""
+    x = dfrom(a)
+    if op == "ofint":
+        return "%016x" % dbits(float(int(y)))
+    if op == "isnan":
+        return "1" if math.isnan(x) else "0"
+    if op == "isfinite":
+        return "1" if math.isfinite(x) else "0"
+    if op == "trunc":
+        if not math.isfinite(x):
+            return "none"
+        n = int(x)
+        return str(n) if abs(n) < 2 ** 63 else "big"
+    z = dfrom(int(y, 16))
+    return {"lt": x < z, "le": x <= z, "eq": x == z}[op] and "1" or "0"
+
+
 def boundary():
     vals = set()
     for d in range(-3, 4):
@@ -74,8 +146,17 @@ def run(chk, replay=None):
     except Refuse as e:
         broken.append("translator tools/translate_int.py refuses the current int.h: %s" % e)
 
+    num = None
+    try:
+        num, changed2 = translate_int.emit_num(os.path.join(C.LEAN, "Vita", "C14", "GenNum.lean"))
+        chk.cov["classes"] = [c[0] for c in num["classes"]]
+        chk.cov["gen_num_changed_vs_committed"] = bool(changed2)
+    except Refuse as e:
+        broken.append("translator tools/translate_int.py refuses integer::number / integer::cast / the class "
+                      "table of the current int.h: %s" % e)
+
     drv_ok = False
-    if names is not None:
+    if names is not None and num is not None:
         ok, out = C.lake_build(["c14_driver"])
         drv_ok = ok
         if not ok:
@@ -84,7 +165,10 @@ def run(chk, replay=None):
         if not ok:
             broken.append("theorems of Vita.C14.Props no longer check: " + msg)
 
-    exe = C.build_harness("c14_int", "asan", extra_flags=["-fsanitize-recover=undefined"])
+    # g++ does not include float-cast-overflow in -fsanitize=undefined
+    exe = C.build_harness("c14_int", "asan", extra_flags=["-fsanitize-recover=undefined",
+                                                          "-fsanitize=float-cast-overflow",
+                                                          "-fsanitize-recover=float-cast-overflow"])
 
     # ---- inputs --------------------------------------------------------
     ops2 = ["add", "sub", "mul", "div", "mod", "shl"]
@@ -92,9 +176,15 @@ def run(chk, replay=None):
     extra = [n for n in (names or []) if n not in ops2 + ops4]
     B = boundary()
     lines = ["names"]
+    NEWK = ("number", "init", "cast", "b64", "loadrun")
+    rline = None
     if replay:
         r = __import__("json").load(open(replay))
-        lines.append(r["replay"]["line"])
+        rline = r["replay"].get("line")
+        if rline and rline.split()[0] not in NEWK:
+            lines.append(rline)
+    if replay:
+        pass
     else:
         for op in ops2 + extra:
             for a in B:
@@ -165,10 +255,179 @@ def run(chk, replay=None):
     chk.cov["model_vs_code_disagreements"] = ndis
     chk.cov["boundary_values"] = len(B)
 
+    # ---- integer::number (double parameter -> int), init, cast, the exact double operations ----------
+    DB = dbl_boundary()
+    nl = []
+    if rline and rline.split()[0] in NEWK:
+        nl.append(rline)
+    elif not replay:
+        quick = chk.tier == "quick"
+        cdir = os.path.join(C.ROOT, "corpus", "C14")
+        if os.path.isdir(cdir):
+            for f in sorted(os.listdir(cdir)):
+                nl += [l.strip() for l in open(os.path.join(cdir, f))
+                       if l.strip() and not l.startswith("#") and l.split()[0] in NEWK]
+        for b in DB:
+            nl.append("number %016x" % b)
+        for _ in range(40000 if quick else 600000):
+            k = rng.below(6)
+            if k == 0:
+                b = rng.next()                                             # any bit pattern (NaNs, infinities, …)
+            elif k == 1:
+                b = dbits(float(rng.between(MIN - 5, MAX + 6)))            # an int (or just outside) as a double
+            elif k == 2:
+                b = dbits((rng.between(MIN - 5, MAX + 6)) + rng.below(1 << 20) / float(1 << 20))   # with a fraction
+            elif k == 3:
+                b = dbits(nxt(float(rng.choice([MAX, MAX + 1, MIN, MIN - 1, 0, 1, -1])), rng.between(-40, 41)))
+            elif k == 4:
+                b = DB[rng.below(len(DB))]
+            else:
+                e = rng.between(1023 - 40, 1023 + 70)                      # magnitudes 2^-40 … 2^70, random mantissa
+                b = (rng.below(2) << 63) | (e << 52) | (rng.next() & ((1 << 52) - 1))
+            nl.append("number %016x" % b)
+        pairs = [(-128, 127), (MIN, MAX), (MIN, MIN + 1), (MAX - 1, MAX), (0, 1), (-1, 0), (-1, 1), (MIN, 0), (0, MAX),
+                 (MAX - 2, MAX), (MIN, MIN + 3)]
+        for _ in range(60 if quick else 2000):
+            a, b = rng.between(MIN, MAX + 1), rng.between(MIN, MAX + 1)
+            if a != b:
+                pairs.append((min(a, b), max(a, b)))
+        for (a, b) in pairs:
+            for _ in range(4 if quick else 12):
+                nl.append(f"init {a} {b} {rng.below(1 << 31)}")
+        for v in ("I0", "I1", "I-1", f"I{MAX}", f"I{MIN}", "I12345", "V", "D3ff0000000000000", "D7ff8000000000000",
+                  "S-", "S3132", "D41dfffffffc00000"):
+            nl.append("cast " + v)
+        for a in DB:
+            for op in ("isnan", "isfinite", "trunc"):
+                nl.append("b64 %s %016x 0" % (op, a))
+            for b in (DB if not quick else DB[::3]):
+                for op in ("lt", "le", "eq"):
+                    nl.append("b64 %s %016x %016x" % (op, a, b))
+        for n in B + [2 ** 53 - 1, -(2 ** 53 - 1), 2 ** 52, 2 ** 52 + 1, 2 ** 40 + 12345, -(2 ** 33) - 7]:
+            nl.append("b64 ofint 0 %d" % n)
+        for _ in range(20000 if quick else 300000):
+            op = ("lt", "le", "eq", "trunc", "isnan", "ofint")[rng.below(6)]
+            if op == "ofint":
+                nl.append("b64 ofint 0 %d" % rng.between(-(2 ** 53) + 1, 2 ** 53))
+            else:
+                a = rng.next()
+                b = rng.next() if rng.below(3) else (a ^ (1 << rng.below(64)))
+                nl.append("b64 %s %016x %016x" % (op, a, b))
+        for txt in ("5", "-7", "0", "2147483647", "2147483648", "-2147483648", "-2147483649", "1e10", "-3e9", "1e300",
+                    "-1e300", "0.5", "-0.99", "2147483647.5", "-2147483648.5", "4294967296", "1e19", "nan", "inf",
+                    "1e999", "2.5e9", "1073741824", "-1073741825"):
+            nl.append("loadrun " + txt)
+
+    ncpp, ndeaths = C.run_lines(exe, nl, env={"UBSAN_OPTIONS": "print_stacktrace=0:halt_on_error=0"}) if nl else ([], [])
+    for idx, rc, se in ndeaths:
+        chk.violation("harness died (rc=%d) while evaluating: %s\n%s" % (rc, nl[idx], se[-1500:]),
+                      {"line": nl[idx]}, tags={"line": nl[idx]})
+    # the model answers the same lines; `init m u seed` becomes `init m u r` with r the integer the code drew
+    ml = []
+    for q, a in zip(nl, ncpp):
+        t = q.split()
+        if t[0] == "init":
+            try:
+                x = dfrom(int(a.split()[0], 16))
+                ml.append(f"init {t[1]} {t[2]} {int(x) if math.isfinite(x) else 0}")
+            except (ValueError, IndexError):
+                ml.append("init 0 1 0")
+        elif t[0] == "loadrun":
+            ml.append("skip")
+        else:
+            ml.append(q)
+    nlean = C.run_driver("c14_driver", ml) if (drv_ok and ml) else None
+    nd2 = 0
+    for i, (q, a) in enumerate(zip(nl, ncpp)):
+        t, c = q.split(), a.split()
+        if not c or c[0] in ("died", "skipped"):
+            continue
+        chk.seen(q)
+        chk.count("kind:" + t[0] + (":" + t[1] if t[0] == "b64" else ""))
+        m = nlean[i] if nlean is not None and i < len(nlean) else None
+        rep = {"line": q, "cpp": a, "model": m}
+        if t[0] == "number":
+            b = int(t[1], 16)
+            x = dfrom(b)
+            want = sat(x)
+            cls = "nan" if math.isnan(x) else "inf" if math.isinf(x) else \
+                "above" if x >= 2147483648.0 else "below" if x <= -2147483649.0 else "inrange"
+            chk.count("number:" + cls)
+            tags = {"op": "number", "par": t[1], "class": cls}
+            if c[0] == "ub":
+                chk.count("cpp_ub")
+                chk.violation(f"undefined behaviour (UBSan float-cast-overflow) in integer::number::eval: the gene "
+                              f"parameter {x!r} (bits {t[1]}) is converted to int although its truncation is not "
+                              f"representable", dict(rep, documented=want), tags=tags)
+            elif c[1] != f"I{want}":
+                chk.violation(f"integer::number::eval on the parameter {x!r} (bits {t[1]}) returned {c[1]}, "
+                              f"documented (saturated truncation) I{want}", dict(rep, documented=want), tags=tags)
+            if m is not None and m.split() != c and not (m == "ub" and c[0] == "ub"):
+                nd2 += 1
+                if nd2 <= 3 and c[0] == "ok" and c[1] == f"I{want}":
+                    broken.append(f"generated term disagrees with compiled code on `{q}`: model {m!r}, code {a!r}")
+        elif t[0] == "init":
+            lo, hi = int(t[1]), int(t[2])
+            x = dfrom(int(c[0], 16))
+            tags = {"op": "init", "min": lo, "upp": hi}
+            if not (math.isfinite(x) and x == int(x) and lo <= int(x) < hi):
+                chk.violation(f"integer::number({lo},{hi}).init() returned {x!r}: not an integer of [{lo},{hi})",
+                              rep, tags=tags)
+            if "ub" in c[1:]:
+                chk.count("cpp_ub")
+                chk.violation(f"undefined behaviour (UBSan) in integer::number({lo},{hi}).init()", rep, tags=tags)
+            if c[1:2] != ["1"]:
+                chk.violation("integer::number::parametric() is false", rep, tags=tags)
+            if m is not None and m.split() != c[:2]:
+                nd2 += 1
+                if nd2 <= 3:
+                    broken.append(f"generated `numberInit` disagrees with compiled code on `{q}`: model {m!r}, code {a!r}")
+            if int(x) in (lo, hi - 1):
+                chk.count("init_at_interval_end")
+        elif t[0] == "cast":
+            want = "ok " + t[1][1:] if t[1][0] == "I" else "T"
+            if a != want:
+                chk.violation(f"integer::cast({t[1]}) answered `{a}`, expected `{want}`", rep, tags={"op": "cast", "v": t[1]})
+            if m is not None and m != a:
+                nd2 += 1
+                broken.append(f"generated `cast` disagrees with compiled code on `{q}`: model {m!r}, code {a!r}")
+        elif t[0] == "b64":
+            want = py_b64(t[1], int(t[2], 16), t[3])
+            if a != want:
+                broken.append(f"harness and Python disagree on the exact double operation `{q}`: {a!r} vs {want!r}")
+            if m is not None and m != want:
+                nd2 += 1
+                if nd2 <= 3:
+                    broken.append(f"the exact binary64 model (Vita/C14/Model.lean) is wrong on `{q}`: model {m!r}, "
+                                  f"hardware {a!r}")
+        elif t[0] == "loadrun":
+            kv = dict(x.split("=") for x in c if "=" in x)
+            chk.count("loadrun:load=" + kv.get("load", "?"))
+            tags = {"op": "loadrun", "par": t[1]}
+            if kv.get("load") == "1" and kv.get("valid") == "1":
+                try:
+                    x = float(t[1])
+                except ValueError:
+                    x = math.nan
+                want = clamp(sat(x) + sat(x))
+                if "ub" in c:
+                    chk.count("cpp_ub")
+                    chk.violation(f"undefined behaviour (UBSan) when vita::run evaluates an individual that i_mep::load "
+                                  f"accepted (is_valid() true): INT terminal with parameter {t[1]}",
+                                  dict(rep, documented=want), tags=tags)
+                elif c[-1] != f"I{want}":
+                    chk.violation(f"vita::run of a loaded ADD(INT {t[1]}, INT {t[1]}) returned {c[-1]}, documented I{want}",
+                                  dict(rep, documented=want), tags=tags)
+        if i % 7919 == 0:
+            chk.sample(rep)
+    chk.cov["number_model_vs_code_disagreements"] = nd2
+    chk.cov["double_boundary_values"] = len(DB)
+
     if broken and not [v for v in chk.violations if not v[2]]:
         for b in broken:
             chk.violation(b, {"broken": b, "searched": f"{len(lines)} operand tuples (boundary cross product "
-                              f"+ random) with UBSan and the documented-value oracle: no failing input"},
+                              f"+ random) and {len(nl)} parameter / conversion lines with UBSan (incl. float-cast-overflow) and "
+                              f"the documented-value oracle: no failing input"},
                           no_input=True)
     elif broken:
         chk.notes += broken
@@ -176,8 +435,14 @@ def run(chk, replay=None):
         level="proof",
         checker_cmd="lake build Vita.C14.Props && lake env lean <#print axioms for every theorem>",
         rule="operand tuples: cross product of %d boundary values for each binary primitive, conditionals on a "
-             "9x9 grid, plus random tuples; distinct = distinct input lines; every one is checked against UBSan, "
-             "the documented value (Python oracle) and the generated Lean term" % len(B),
+             "9x9 grid, plus random tuples; gene parameters of integer::number: %d boundary doubles (int bounds +- ulps, "
+             "halves, zeros, denormals, extremes, infinities, NaN payloads) + random bit patterns / ints / fractions; "
+             "init() on boundary and random [min,upp); integer::cast on every alternative; the exact double operations "
+             "of the model on the boundary cross product + random patterns; programs read by i_mep::load; distinct = "
+             "distinct input lines; every one is checked against UBSan (+float-cast-overflow), the documented value "
+             "(Python oracle) and the generated Lean term" % (len(B), len(DB)),
         trusted=["Lean 4.33 kernel", "tools/translate_int.py + cxx2lean.py (clang-14 JSON AST -> E syntax)",
                  "Vita.Common.IntE semantics of E (C++17 [expr] rules for int/long)",
+                 "Vita/C14/Model.lean: exact bit-level model of binary64 comparisons / int<->double conversions "
+                 "(C++17 [conv.fpint]); run against the hardware on every check (`b64` lines)",
                  "g++ 12.2 UBSan for the differential run"])
